@@ -193,6 +193,8 @@ func Catalogue(tier string) []*ASystem {
 		{Impl: "store-small", Kind: "store", Slots: smallSlots, Queries: smallQueries[:12], Dels: [][]int{{1}, {2}, {3}, {4}, {1, 3}, {2, 4, 2}}, Batches: [][]int{{1, 2}, {3, 4, 1}}},
 		{Impl: "ret-pol", Kind: "ret", DefRet: 90, CatRet: catret(cSession, 365, cNat, 30), SetDays: []int{7, 365}, SetCats: []int{cSession, cAuth}, SetTys: []int{tSessStart, tAuthFail}},
 		{Impl: "ret-hold", Kind: "ret", DefRet: 90, Slots: retSlots, Holds: retHolds},
+		// the system in which the known finding about re-stored ids lives
+		{Impl: "store-dup", Kind: "store", Dup: true, Slots: smallSlots[:2], Queries: smallQueries[:2], Dels: [][]int{{1}, {2}}, MaxDepth: 4}, // every restore grows the raw indexes: bounded by depth
 		// the logger, SyncWrites
 		{Impl: "log-sync", Kind: "log", Sync: true, Buf: 4, DefRet: 3, CatRet: catret(cSession, 2, cNat, 1, cSystem, 1), Tmpls: logTmpls, NX: 1, MaxLog: 2, MaxDay: 2, StopOp: true, PreStart: true},
 		// the logger, asynchronous
